@@ -33,6 +33,7 @@ P(id, e, n, u, role) == [id |-> id, e |-> e, n |-> n, u |-> u, role |-> role]
 O(t, f, to) == [t |-> t, from |-> f, to |-> to, to2 |-> ""]
 A3(f, bs, fs) == [t |-> "angle", from |-> f, to |-> bs, to2 |-> fs]
 
+FreeTemplates == {"free2d", "freevec3d", "freelev1d"}        \* no fixed point: the datum is defined by the constrained points
 Template(name) ==
   CASE name = "tri2d" ->
        [dim |-> 2,
@@ -86,6 +87,16 @@ Template(name) ==
                    O("direction", "B", "A"), O("direction", "B", "C"), O("direction", "B", "D"), O("distance", "B", "D"),
                    O("direction", "C", "A"), O("direction", "C", "B"), O("direction", "C", "D")>>,
         opt |-> <<O("distance", "C", "D"), O("azimuth", "A", "B"), A3("D", "A", "B")>>]
+    [] name = "freevec3d" ->       \* free 3-D network of GNSS vectors (defect 3: translations); the first vector joins two new points
+       [dim |-> 3,
+        pts |-> <<P("A", 100, 200, 50, "unk"), P("B", 400, 600, 80, "unk"), P("C", 700, 200, 20, "unk"), P("D", 400, 200, 60, "unk"), P("E", 900, 700, 35, "unk")>>,
+        mand |-> <<O("vector", "A", "B"), O("vector", "B", "C"), O("vector", "C", "D"), O("vector", "D", "E")>>,
+        opt |-> <<O("vector", "E", "A"), O("vector", "A", "C"), O("vector", "B", "D"), O("s-distance", "A", "D")>>]
+    [] name = "freelev1d" ->       \* free levelling network (defect 1)
+       [dim |-> 1,
+        pts |-> <<P("A", 0, 0, 100, "unk"), P("B", 0, 0, 110, "unk"), P("C", 0, 0, 125, "unk"), P("D", 0, 0, 95, "unk")>>,
+        mand |-> <<O("dh", "A", "B"), O("dh", "B", "C"), O("dh", "C", "D")>>,
+        opt |-> <<O("dh", "D", "A"), O("dh", "A", "C"), O("dh", "B", "D")>>]
     [] OTHER ->                    \* "lev1d": heights only
        [dim |-> 1,
         pts |-> <<P("A", 0, 0, 100, "fix"), P("B", 0, 0, 110, "unk"), P("C", 0, 0, 125, "unk"), P("D", 0, 0, 95, "unk")>>,
@@ -197,13 +208,13 @@ Applicable(e) ==
   /\ (e.k = "Blunder" => net.noise = 0 /\ net.t \in {"tri2d", "dist2d", "polar3d", "fstat2d", "fstat3d", "lev1d"}
                           /\ (e.obs <= Len(Template(net.t).mand) \/ e.obs = LastObs))
   /\ (e.k = "Isolate" => net.t \in {"tri2d", "dist2d", "polar3d"})
-  /\ (e.k = "ChangeDatum" => net.t \in {"free2d"})
+  /\ (e.k = "ChangeDatum" => net.t \in FreeTemplates)
   /\ (e.k = "AddConsistentObs" => net.noise = 0)
-  /\ (e.k \in {"OmitApprox", "PerturbApprox"} => net.noise = 0 /\ net.t # "free2d")    \* the datum of a free network is defined by its approximate coordinates
+  /\ (e.k \in {"OmitApprox", "PerturbApprox"} => net.noise = 0 /\ net.t \notin FreeTemplates)    \* the datum of a free network is defined by its approximate coordinates
   /\ (e.k = "AttachHeights" => net.t \in {"polar3d", "fstat3d"} /\ net.noise = 0)
-  /\ (e.k = "RotateCircle" => net.t # "lev1d" /\ net.t # "vec3d")
-  /\ (e.k = "MirrorAxes" => net.t # "lev1d")
-  /\ (e.k = "SwitchUnits" => net.t # "lev1d" /\ net.t # "vec3d")
+  /\ (e.k = "RotateCircle" => net.t \notin {"lev1d", "vec3d", "freevec3d", "freelev1d"})
+  /\ (e.k = "MirrorAxes" => net.t \notin {"lev1d", "freelev1d"})
+  /\ (e.k = "SwitchUnits" => net.t \notin {"lev1d", "vec3d", "freevec3d", "freelev1d"})
 
 HashEdit(e) == Len(e.k) * 11 + (IF "s" \in DOMAIN e THEN e.s * 7 ELSE 0) + (IF "w" \in DOMAIN e THEN e.w % 89 ELSE 0)
                + (IF "axes" \in DOMAIN e THEN (IF e.axes \in {"ne", "sw", "es", "wn"} THEN 2 ELSE 5) + (IF e.axes \in {"ne", "en", "se", "es"} THEN 1 ELSE 0) ELSE 0)
